@@ -8,15 +8,16 @@ import ExoVerif.Model.GenesisAssets
   key = the id(s) of its value, no negative amount, params stored by SetParams) `initAssets (exportAssets s) = some s` —
   no panic, every store reproduced entry by entry (hence the second export equals the first: `C18_assets_reexport`).
 * `C18_assets_writer_keeps_store`: `ssSet` — what every setter of the module does — keeps a store sorted.
-* validation: `C18_assets_full` (every reachable state's export validates and re-imports) is REFUTED on the code as it is,
-  by two machine-checked witnesses, both reproduced on the real application by the directed scenarios D4 / D5 of the
-  `genesis` domain:
-    - F-18j `C18_assets_full_fails`: a native-token delegation writes an operator pool row under ExocoreAssetID, which is
-      never a registered token ⇒ ValidateOperatorAssets: "unknown assetID for operator assets";
-    - F-18k `C18_assets_wide_address_fails`: the assets precompile admits client chains with more than 20 address bytes
-      (addressLength ≥ 20) and their tokens ⇒ ValidateTokens: "not hex address".
-  `C18_assets_export_validates_partial` is what holds: with every pool row's asset registered and 20-byte addresses only,
-  the export passes Validate.
+* validation: `C18_assets_full` (every reachable state's export validates and re-imports) is still REFUTED on the code as
+  it is (F-18k, open): the assets precompile admits client chains with more than 20 address bytes (addressLength ≥ 20) and
+  their tokens ⇒ ValidateTokens: "not hex address" (`C18_assets_full_fails`, `C18_assets_wide_address_fails`; directed
+  scenario D5 of the `genesis` domain reproduces it on the real application).
+  `C18_assets_export_validates_partial` is what holds: with 20-byte addresses only, and every pool row being a pool of a
+  registered token or of the native token, the export passes Validate.
+* F-18j (repaired): a native-token delegation writes an operator pool row under ExocoreAssetID, which is not a registered
+  token; ValidateOperatorAssets used to reject the module's own export ("unknown assetID for operator assets"). The model
+  carries the repair as `nativeExempt`; `C18_assets_native_pool_validates` is the repaired behaviour on the witness,
+  `C18_regression_F18j*` keep the pre-repair counter-example (`validateAssetsPreFix`); directed scenario D4 replays it.
 -/
 namespace ExoVerif.Genesis
 
@@ -355,8 +356,10 @@ def EvmOnly (s : Assets) : Prop :=
   (∀ p ∈ s.tokens, isHexAddress p.2.addr = true) ∧
   (∀ p ∈ s.deposits, ∀ a n, parseID p.2.staker = some (a, n) → isHexAddress a = true)
 
-/-- extra hypothesis 2 (fails on the code as it is, F-18j): every operator pool is a pool of a registered token -/
-def PoolsRegistered (s : Assets) : Prop := ∀ p ∈ s.opAssets, ∃ t, ssGet p.2.asset s.tokens = some t
+/-- every operator pool is a pool of a registered token or of the native token (UpdateOperatorAssetState is called by
+    x/delegation only, after IsStakingAsset for client-chain assets, or with ExocoreAssetID for MsgDelegation) -/
+def PoolsRegistered (s : Assets) : Prop :=
+  ∀ p ∈ s.opAssets, (∃ t, ssGet p.2.asset s.tokens = some t) ∨ (p.2.asset = exocoreAssetID ∧ ssGet p.2.asset s.tokens = none)
 
 theorem tokenTotal_of_ssGet (ts : List (String × TokenInfo)) (hk : ∀ p ∈ ts, p.1 = assetIDOf p.2) (k : String) (t : TokenInfo)
     (h : ssGet k ts = some t) : tokenTotal (ts.map (·.2)) k = some t.total := by
@@ -493,8 +496,25 @@ theorem validateDeposits_export (s : Assets) (h : StoreInv s) (hv : ValidInv s) 
       simp only [validateDepItem, DepRow.item, htt, q6, beq_self_eq_true, Bool.and_eq_true, Bool.true_and]
       exact ⟨⟨⟨⟨decide_eq_true q9, decide_eq_true q10⟩, decide_eq_true q11⟩, decide_eq_true q7⟩, decide_eq_true q8⟩
 
+theorem tokenTotal_none_of_ssGet (ts : List (String × TokenInfo)) (hk : ∀ p ∈ ts, p.1 = assetIDOf p.2) (k : String)
+    (h : ssGet k ts = none) : tokenTotal (ts.map (·.2)) k = none := by
+  induction ts with
+  | nil => rfl
+  | cons p r ih =>
+    obtain ⟨k', v'⟩ := p
+    have hk' : k' = assetIDOf v' := hk (k', v') (by simp)
+    unfold ssGet at h
+    by_cases e : k = k'
+    · simp [e] at h
+    · simp only [e, if_false] at h
+      have hne : (assetIDOf v' == k) = false := by
+        simp only [beq_eq_false_iff_ne, ne_eq, ← hk']
+        exact fun h' => e h'.symm
+      have := ih (fun p hp => hk p (by simp [hp])) h
+      simpa [tokenTotal, List.find?, hne] using this
+
 theorem validateOpAssets_export (s : Assets) (h : StoreInv s) (hv : ValidInv s) (hr : PoolsRegistered s) :
-    validateOpAssets (exportAssets s).tokens (exportAssets s).opAssets = true := by
+    validateOpAssets true (exportAssets s).tokens (exportAssets s).opAssets = true := by
   simp only [validateOpAssets, exportAssets, Bool.and_eq_true, decide_eq_true_eq, List.all_eq_true, List.map_map]
   have hpw := sorted_values_distinct s.opAssets OpRow.key h.opsKey h.opsSorted
   refine ⟨?_, ?_⟩
@@ -514,26 +534,32 @@ theorem validateOpAssets_export (s : Assets) (h : StoreInv s) (hv : ValidInv s) 
     · intro d hd
       obtain ⟨x, hx, rfl⟩ := List.mem_map.mp hd
       obtain ⟨p, hp, hpx⟩ := List.mem_map.mp (hsub.subset hx)
-      obtain ⟨t, ht⟩ := hr p hp
       have ho := hv.opOK p hp
-      simp only [hpx] at ht ho
-      have htt := tokenTotal_of_ssGet s.tokens h.tokensKey _ _ ht
-      simp only [validateOpItem, OpRow.item, htt, Bool.and_eq_true]
-      exact ⟨decide_eq_true (ho.2 t ht), decide_eq_true ho.1⟩
+      rcases hr p hp with ⟨t, ht⟩ | ⟨hnat, hnone⟩
+      · simp only [hpx] at ht ho
+        have htt := tokenTotal_of_ssGet s.tokens h.tokensKey _ _ ht
+        simp only [validateOpItem, OpRow.item, htt, Bool.and_eq_true]
+        exact ⟨decide_eq_true (ho.2 t ht), decide_eq_true ho.1⟩
+      · simp only [hpx] at hnat hnone ho
+        have htt := tokenTotal_none_of_ssGet s.tokens h.tokensKey _ hnone
+        rw [hnat] at htt
+        simp only [validateOpItem, OpRow.item, hnat, htt, beq_self_eq_true, Bool.true_and]
+        exact decide_eq_true ho.1
 
 /-- **What holds for the code as it is.** The export of a state of the stores (`StoreInv`) with the cross-collection
-    facts of reachable states (`ValidInv`) passes GenesisState.Validate, provided no client chain has addresses longer
-    than 20 bytes (`EvmOnly`) and every operator pool belongs to a registered token (`PoolsRegistered`). -/
+    facts of reachable states (`ValidInv`, `PoolsRegistered`: pools of registered tokens or of the native token) passes
+    GenesisState.Validate, provided no client chain has addresses longer than 20 bytes (`EvmOnly`). -/
 theorem C18_assets_export_validates_partial (s : Assets) (h : StoreInv s) (hv : ValidInv s) (he : EvmOnly s)
     (hr : PoolsRegistered s) : validateAssets (exportAssets s) = true := by
-  unfold validateAssets
+  unfold validateAssets validateAssetsWith
   rw [validateChains_export s hv, validateTokens_export s h hv he, validateDeposits_export s h hv he,
     validateOpAssets_export s h hv hr]
   simp [validateParams, exportAssets, h.paramsOK.1, h.paramsOK.2.1]
 
 /-- C18 for x/assets at full strength: the export of every state the module can be in validates and re-imports -/
 def C18_assets_full : Prop :=
-  ∀ s : Assets, StoreInv s → ValidInv s → validateAssets (exportAssets s) = true ∧ initAssets (exportAssets s) = some s
+  ∀ s : Assets, StoreInv s → ValidInv s → PoolsRegistered s →
+    validateAssets (exportAssets s) = true ∧ initAssets (exportAssets s) = some s
 
 /-! ## a concrete state, the two counter-examples -/
 
@@ -542,7 +568,7 @@ def usdtID : String := "0xdac17f958d2ee523a2206206994597c13d831ec7_0x65"
 def stakerA : String := "0x3e108c058e8066da635321dc3018294ca82ddedf_0x65"
 def stakerB : String := "0x90618d1cdb01bf37c24fc012e70029da20fcdbcb_0x65"
 def op1 : String := "exo18cggcpvwspnd5c6ny8wrqxpffj5zmhklprtnph"
-def nativeID : String := "0x0000000000000000000000000000000000000000_0x0"
+def nativeID : String := exocoreAssetID
 def okParams : AParams := ⟨"0x3e108c058e8066da635321dc3018294ca82ddedf", "0xc6a377bfc4eb120024a8ac08eef205be16b817020812c73223e81d1bdb9708ec"⟩
 
 /-- one client chain, one token, two stakers (one with a pending undelegation), one operator pool -/
@@ -596,11 +622,14 @@ theorem goodState_evm : EvmOnly goodState := by
     obtain ⟨rfl, rfl⟩ := Prod.mk.inj (Option.some.inj h2)
     decide
 
+theorem goodState_evm_native : EvmOnly { goodState with opAssets := [(joinKey op1 nativeID, ⟨op1, nativeID, 12345, 0, 12345000000000000000000, 0⟩),
+                                (joinKey op1 usdtID, ⟨op1, usdtID, 3000000, 1000000, 3000000000000000000000000, 0⟩)] } := goodState_evm
+
 theorem goodState_pools : PoolsRegistered goodState := by
   intro p hp
   simp only [goodState, List.mem_cons, List.not_mem_nil, or_false] at hp
   subst hp
-  exact ⟨usdt, by decide⟩
+  exact Or.inl ⟨usdt, by decide⟩
 
 /-- non-vacuity: the hypotheses of the round-trip and of the validation theorem are met by a non-trivial state, and the
     model computes what the theorems say -/
@@ -642,19 +671,35 @@ theorem nativePool_valid : ValidInv nativePoolState := by
     subst this
     decide
 
-/-- the export of the witness is rejected by ValidateOperatorAssets ("unknown assetID for operator assets") … -/
-theorem C18_assets_native_pool_not_validated : validateAssets (exportAssets nativePoolState) = false := by decide
+theorem nativePool_pools : PoolsRegistered nativePoolState := by
+  intro p hp
+  simp only [nativePoolState, goodState, List.mem_cons, List.not_mem_nil, or_false] at hp
+  rcases hp with rfl | rfl
+  · exact Or.inr ⟨rfl, by decide⟩
+  · exact Or.inl ⟨usdt, by decide⟩
 
-/-- … while the import itself reproduces the state -/
-example : initAssets (exportAssets nativePoolState) = some nativePoolState := C18_roundtrip_assets _ nativePool_store
+/-- Repaired code (F-18j): the export of a state with a native-token pool passes Validate and re-imports exactly -/
+theorem C18_assets_native_pool_validates :
+    validateAssets (exportAssets nativePoolState) = true ∧ initAssets (exportAssets nativePoolState) = some nativePoolState :=
+  ⟨C18_assets_export_validates_partial _ nativePool_store nativePool_valid goodState_evm_native nativePool_pools,
+   C18_roundtrip_assets _ nativePool_store⟩
 
-/-- **F-18j.** The full statement is refuted on the code as it is: after a native-token delegation the module's own
-    export does not pass its own validation. -/
-theorem C18_assets_full_fails : ¬ C18_assets_full := by
-  intro h
-  have := (h nativePoolState nativePool_store nativePool_valid).1
-  rw [C18_assets_native_pool_not_validated] at this
-  exact absurd this (by decide)
+example : validateAssets (exportAssets nativePoolState) = true := by decide
+
+/-- Pre-repair regression (F-18j): the same export was rejected by ValidateOperatorAssets ("unknown assetID for operator
+    assets") … -/
+theorem C18_regression_F18j_native_pool_not_validated : validateAssetsPreFix (exportAssets nativePoolState) = false := by decide
+
+/-- … so the full statement failed for the pre-repair Validate on a state reachable by one MsgDelegation -/
+theorem C18_regression_F18j : ∃ s : Assets, StoreInv s ∧ ValidInv s ∧ PoolsRegistered s ∧
+    initAssets (exportAssets s) = some s ∧ validateAssetsPreFix (exportAssets s) = false :=
+  ⟨nativePoolState, nativePool_store, nativePool_valid, nativePool_pools, C18_roundtrip_assets _ nativePool_store,
+   C18_regression_F18j_native_pool_not_validated⟩
+
+/-- the exemption is for the native token only: a pool of any other unregistered asset is still rejected -/
+theorem C18_assets_unregistered_pool_rejected :
+    validateAssets (exportAssets { goodState with opAssets := [(joinKey op1 stakerA, ⟨op1, stakerA, 1, 0, 1, 0⟩)] }) = false := by
+  decide
 
 def wideToken : TokenInfo := ⟨207, "0xf99ceaf565cee79e48fbf1089992aed9d0cad78de102738bce39c58b4b2f9223", 9, "WTK", 0⟩
 
@@ -668,9 +713,37 @@ theorem wideChain_store : StoreInv wideChainState := by
   refine ⟨by decide, ?_, by decide, ?_, by decide, by decide, ?_, by decide, by decide, ?_, by decide, by decide⟩ <;>
     (unfold Sorted; decide)
 
-/-- **F-18k.** A state with a registered token of a client chain with 32-byte addresses satisfies every store invariant
-    and is re-imported exactly, but its export is rejected by ValidateTokens ("not hex address"): the 20-byte hypothesis of
-    `C18_assets_export_validates_partial` cannot be dropped. -/
+theorem wideChain_valid : ValidInv wideChainState := by
+  refine ⟨by decide, by decide, by decide, by decide, by decide, ?_, by decide, ?_⟩
+  · intro p hp
+    simp only [wideChainState, goodState, List.mem_cons, List.not_mem_nil, or_false] at hp
+    rcases hp with rfl | rfl
+    · exact ⟨"0x3e108c058e8066da635321dc3018294ca82ddedf", 101, usdt, by decide, by decide, by decide, by decide, by decide,
+        by decide, by decide⟩
+    · exact ⟨"0x90618d1cdb01bf37c24fc012e70029da20fcdbcb", 101, usdt, by decide, by decide, by decide, by decide, by decide,
+        by decide, by decide⟩
+  · intro p hp
+    simp only [wideChainState, goodState, List.mem_cons, List.not_mem_nil, or_false] at hp
+    subst hp
+    refine ⟨by decide, ?_⟩
+    intro t ht
+    have : t = usdt := by
+      have h' : ssGet usdtID wideChainState.tokens = some usdt := by decide
+      have : ssGet usdtID wideChainState.tokens = some t := ht
+      rw [h'] at this
+      exact (Option.some.inj this).symm
+    subst this
+    decide
+
+theorem wideChain_pools : PoolsRegistered wideChainState := by
+  intro p hp
+  simp only [wideChainState, goodState, List.mem_cons, List.not_mem_nil, or_false] at hp
+  subst hp
+  exact Or.inl ⟨usdt, by decide⟩
+
+/-- **F-18k (open).** A state with a registered token of a client chain with 32-byte addresses satisfies every store
+    invariant and is re-imported exactly, but its export is rejected by ValidateTokens ("not hex address"): the 20-byte
+    hypothesis of `C18_assets_export_validates_partial` cannot be dropped. -/
 theorem C18_assets_wide_address_fails :
     StoreInv wideChainState ∧ ¬ EvmOnly wideChainState ∧ initAssets (exportAssets wideChainState) = some wideChainState ∧
     validateAssets (exportAssets wideChainState) = false := by
@@ -680,13 +753,11 @@ theorem C18_assets_wide_address_fails :
   revert this
   decide
 
-/-- and the registered-pool hypothesis cannot be dropped either -/
-theorem C18_assets_native_pool_unregistered : ¬ PoolsRegistered nativePoolState := by
+/-- the full statement is still refuted on the code as it is, through F-18k -/
+theorem C18_assets_full_fails : ¬ C18_assets_full := by
   intro h
-  obtain ⟨t, ht⟩ := h (joinKey op1 nativeID, ⟨op1, nativeID, 12345, 0, 12345000000000000000000, 0⟩) (by simp [nativePoolState])
-  have h' : ssGet nativeID nativePoolState.tokens = none := by decide
-  have : ssGet nativeID nativePoolState.tokens = some t := ht
-  rw [h'] at this
-  exact absurd this (by simp)
+  have := (h wideChainState wideChain_store wideChain_valid wideChain_pools).1
+  rw [C18_assets_wide_address_fails.2.2.2] at this
+  exact absurd this (by decide)
 
 end ExoVerif.Genesis
